@@ -3,7 +3,7 @@
 use std::cell::RefCell;
 use std::collections::BTreeSet;
 
-use tea_core::prelude::TResult;
+use tea_core::prelude::{Cast, IsNone, TResult};
 
 use crate::json::J;
 use crate::program::{Ty, Val};
@@ -235,5 +235,51 @@ impl Drop for Tracked {
                 }
             }
         });
+    }
+}
+
+// Tracked items as a *nullable* element type (null = origin -1), so that drop-tracked,
+// non-Copy values can flow through the library's null-aware adaptors (vshift, ffill, bfill,
+// fill): modelled on the library's own `impl IsNone for String`.
+impl IsNone for Tracked {
+    type Inner = Tracked;
+    type Cast<U: IsNone<Inner = U> + Clone> = U;
+
+    fn is_none(&self) -> bool {
+        self.origin == -1
+    }
+
+    fn none() -> Self {
+        Tracked::new(-1)
+    }
+
+    fn to_opt(self) -> Option<Tracked> {
+        if self.is_none() { None } else { Some(self) }
+    }
+
+    fn as_opt(&self) -> Option<&Tracked> {
+        if self.is_none() { None } else { Some(self) }
+    }
+
+    fn from_inner(inner: Tracked) -> Self {
+        inner
+    }
+
+    fn inner_cast<U: IsNone<Inner = U> + Clone>(inner: U) -> Self::Cast<U>
+    where
+        Self::Inner: Cast<U::Inner>,
+    {
+        Cast::<U>::cast(inner)
+    }
+
+    fn unwrap(self) -> Tracked {
+        self
+    }
+
+    fn map<F, U: IsNone>(self, f: F) -> U
+    where
+        F: Fn(Self::Inner) -> U::Inner,
+    {
+        U::from_inner(f(self))
     }
 }
